@@ -144,15 +144,13 @@ def sadd (p : Nat) (l : List Nat) : List Nat := if p ∈ l then l else p :: l
 /-- `set.remove` (the caller checks membership first: absent = KeyError) -/
 def srem (p : Nat) (l : List Nat) : List Nat := l.filter (fun q => q != p)
 
-/-- `_get_unused_physical_qubit`: the smallest `q ≥ p` not in `l`. -/
-def firstUnusedFrom : List Nat → Nat → Nat
-  | l, p => if h : p ∈ l then firstUnusedFrom (l.erase p) (p + 1) else p
-termination_by l => l.length
-decreasing_by
-  have := List.length_pos_of_mem h
-  simp [List.length_erase_of_mem h]; omega
+/-- `_get_unused_physical_qubit`: the smallest `q ≥ p` not in `l` (`for q in count(p)`); the fuel
+argument (the length of `l` suffices) only makes the recursion structural. -/
+def firstUnusedFrom : Nat → List Nat → Nat → Nat
+  | 0, _, p => p
+  | f + 1, l, p => if p ∈ l then firstUnusedFrom f (l.erase p) (p + 1) else p
 
-def firstUnused (l : List Nat) : Nat := firstUnusedFrom l 0
+def firstUnused (l : List Nat) : Nat := firstUnusedFrom l.length l 0
 
 /-! ### One application's view -/
 
